@@ -3,5 +3,5 @@ mod case;
 mod value;
 
 pub(super) use attributes::{ContainerAttributes, FieldAttributes, VariantAttributes};
-pub(super) use case::Case;
-pub(super) use value::{EqValue, Separatable};
+pub(crate) use case::Case;
+pub(crate) use value::{EqValue, Separatable};
